@@ -349,6 +349,16 @@ func (fr *Frame) applyContract(st *State, ct *Contract, f *ssa.Function, sig *ty
 				eng.frames.addAll(ws, eng.frames.of(g, nil))
 			}
 		}
+		if ct.inferRest && f != nil {
+			// 'assigns <items>, inferred': within a class the items name, only those locations
+			// are written (havocAssigns above forgot exactly them; the callee's own
+			// #frame obligations for these classes check it); 'inferred' supplies the rest
+			ex := map[string]bool{}
+			eng.assignClasses(f, ct, ex)
+			for k := range ex {
+				delete(ws, k)
+			}
+		}
 		if len(ct.keeps) > 0 {
 			// trusted partial frame: the named classes are not written
 			for _, k := range ct.keeps {
